@@ -342,6 +342,11 @@ def run_file(path):
         try:
             exec(p["code"], env)
             res = env["replay"]()
+            import attrs as _attrs
+
+            if _attrs.validators.get_disabled():
+                _attrs.validators.set_disabled(False)
+                return True, "the call leaves attrs validators disabled process-wide; " + str(res[1])
             return (not res[0]), res[1]
         except BaseException as e:  # noqa
             return True, "%s: %s" % (type(e).__name__, e)
